@@ -42,10 +42,10 @@ SECOND = {
     'minimal': {'eid': 0x50000A02, 'plid': 0x50000A02, 'sections': []},
     'filtered': {'eid': 0x50000A02, 'plid': 0x50000A02, 'uh': {'sev': 0x40, 'flags': 0x6000}, 'sections': [{'t': 'PS'}]},
 }
-J_SECONDS = ['fine', 'undecodable', 'filtered', 'minimal', 'cut-at-boundary', 'cut-in-header', 'plugin-raises']
-F_KINDS = ['fine', 'undecodable', 'filtered', 'badph', 'missing', 'cut-at-boundary', 'cut-in-header', 'plugin-raises']
+J_SECONDS = ['fine', 'undecodable', 'filtered', 'minimal', 'cut-at-boundary', 'cut-in-header', 'plugin-raises', 'short-length', 'zero-tail']
+F_KINDS = ['fine', 'undecodable', 'filtered', 'badph', 'missing', 'cut-at-boundary', 'cut-in-header', 'plugin-raises', 'short-length', 'zero-tail']
 # inputs for which no output may exist whatever the tool's own fault-free run produces (decided by construction, not by the tool)
-NO_OUTPUT_KINDS = {'undecodable', 'badph', 'filtered', 'cut-at-boundary', 'cut-in-header'}
+NO_OUTPUT_KINDS = {'undecodable', 'badph', 'filtered', 'cut-at-boundary', 'cut-in-header', 'short-length', 'zero-tail'}
 CHUNKS = [64, 1024, 0]
 
 
@@ -57,6 +57,17 @@ def second_bytes(kind):
         spec = pelgen.pel_from_spec(SECOND['fine'])
         start = pelgen.section_offsets(spec)[-1][0]
         return pelgen.encode_pel(spec)[:start + (0 if kind == 'cut-at-boundary' else 5)]
+    if kind in ('short-length', 'zero-tail'):
+        # complete in size, but the last section is damaged: its length field says 4 (less than its own header) / the file's
+        # tail is zero-filled from that section on (as after a power loss): not a PEL that has a decoded output
+        spec = pelgen.pel_from_spec(SECOND['fine'])
+        b = bytearray(pelgen.encode_pel(spec))
+        start = pelgen.section_offsets(spec)[-1][0]
+        if kind == 'short-length':
+            b[start + 2:start + 4] = b'\x00\x04'
+        else:
+            b[start:] = bytes(len(b) - start)
+        return bytes(b)
     if kind == 'badph':
         return b'XX' + pelgen.encode_pel(pelgen.pel_from_spec(SECOND['fine']))[2:]
     return pelgen.encode_pel(pelgen.pel_from_spec(SECOND[kind]))
